@@ -245,6 +245,11 @@ func (p *c17) requiredFields(x *res, ctx *runner.Ctx) {
 		{"put-null-false", adapt.Op{Kind: adapt.OpPut, Table: spec.Name, Item: val.Item{"h": val.Str("k"), "a": val.Invalid("null-false")}}},
 		{"put-null-false-nested", adapt.Op{Kind: adapt.OpPut, Table: spec.Name, Item: val.Item{"h": val.Str("k"), "a": val.List(val.Map(map[string]val.V{"x": val.Invalid("null-false")}))}}},
 		{"put-missing-list-element", adapt.Op{Kind: adapt.OpPut, Table: spec.Name, Item: val.Item{"h": val.Str("k"), "a": val.List(val.Str("x"), val.Invalid("nil"))}}},
+		{"put-attribute-without-value", adapt.Op{Kind: adapt.OpPut, Table: spec.Name, Item: val.Item{"h": val.Str("k"), "a": val.Invalid("nil"), "b": val.Str("x")}}},
+		{"put-map-member-without-value", adapt.Op{Kind: adapt.OpPut, Table: spec.Name, Item: val.Item{"h": val.Str("k"), "a": val.Map(map[string]val.V{"x": val.Invalid("nil"), "y": val.Str("x")})}}},
+		{"update-value-without-value", adapt.Op{Kind: adapt.OpUpdate, Table: spec.Name, Key: val.Item{"h": val.Str("k")}, Update: "SET a = :n", Values: val.Item{":n": val.Invalid("nil")}}},
+		{"put-empty-binary-set", adapt.Op{Kind: adapt.OpPut, Table: spec.Name, Item: val.Item{"h": val.Str("k"), "a": val.BS()}}},
+		{"put-empty-string-set", adapt.Op{Kind: adapt.OpPut, Table: spec.Name, Item: val.Item{"h": val.Str("k"), "a": val.SS()}}},
 		{"put-untyped-map-member", adapt.Op{Kind: adapt.OpPut, Table: spec.Name, Item: val.Item{"h": val.Str("k"), "a": val.Map(map[string]val.V{"x": val.Invalid("empty")})}}},
 		{"delete-condition-value-null-false", adapt.Op{Kind: adapt.OpDelete, Table: spec.Name, Key: val.Item{"h": val.Str("k")}, Cond: "attribute_not_exists(a) OR a = :n", Values: val.Item{":n": val.Invalid("null-false")}}},
 		{"update-value-null-false", adapt.Op{Kind: adapt.OpUpdate, Table: spec.Name, Key: val.Item{"h": val.Str("k")}, Update: "SET a = :n", Values: val.Item{":n": val.Invalid("null-false")}}},
